@@ -57,14 +57,41 @@ Theorem gen_query_roundtrip : forall rn q,
   exists w, apply (gen_env rn) CQTo q = Ok w /\ apply (gen_env rn) CQFrom w = Ok q.
 Proof. intros rn q Hd. apply (roundtrip_all _ (gen_env_ok rn) q CQTo CQFrom eq_refl Hd). Qed.
 
-Theorem gen_handlers_total : forall rn search list,
+Theorem gen_handlers_total : forall rn search stream list,
   (forall q o w, o <> VNil -> search q o <> Panic w) ->
+  (forall q o w, o <> VNil -> stream q o <> Panic w) ->
   (forall q o w, list q o <> Panic w) ->
+  (forall q o r, search q o = Ok r -> res_dom (gen_env rn) "zoekt.SearchResult" r = true) ->
+  (forall q o evs, stream q o = Ok (VL evs) -> forallb (res_dom (gen_env rn) "zoekt.SearchResult") evs = true) ->
+  (forall q o r, list q o = Ok r -> res_dom (gen_env rn) "zoekt.RepoList" r = true) ->
   forall h req, wire_wf req = true ->
-  forall w, handle (gen_env rn) search list handler_defaults_nil_opts h req <> Panic w.
+  forall w, handle (gen_env rn) search stream list handler_defaults_nil_opts h req <> Panic w.
 Proof.
-  intros rn search list Hs Hl h req Hwf w.
-  apply (handlers_total (gen_env rn) search list (gen_from_safe rn) Hs Hl h req Hwf w).
+  intros rn search stream list Hs Hst Hl Ds Dst Dl h req Hwf w.
+  apply (handlers_total (gen_env rn) search stream list (gen_from_safe rn) (gen_env_ok rn) Hs Hst Hl Ds Dst Dl h req Hwf w).
+Qed.
+
+Theorem gen_search_response_lossless : forall rn search,
+  (forall q o w, o <> VNil -> search q o <> Panic w) ->
+  (forall q o r, search q o = Ok r -> res_dom (gen_env rn) "zoekt.SearchResult" r = true) ->
+  forall req resp, wire_wf req = true ->
+  handle_search (gen_env rn) search handler_defaults_nil_opts req = Ok resp ->
+  exists q o r, search q o = Ok r /\
+    dec_result (gen_env rn) "zoekt.SearchResult" resp = Ok (res_back (gen_env rn) "zoekt.SearchResult" r).
+Proof.
+  intros rn search Hs Ds req resp Hwf H.
+  apply (search_response_lossless (gen_env rn) search (gen_from_safe rn) (gen_env_ok rn) Hs Ds req resp Hwf H).
+Qed.
+
+Theorem gen_list_response_lossless : forall rn list,
+  (forall q o r, list q o = Ok r -> res_dom (gen_env rn) "zoekt.RepoList" r = true) ->
+  forall req resp, wire_wf req = true ->
+  handle_list (gen_env rn) list req = Ok resp ->
+  exists q o r, list q o = Ok r /\
+    dec_result (gen_env rn) "zoekt.RepoList" resp = Ok (res_back (gen_env rn) "zoekt.RepoList" r).
+Proof.
+  intros rn list Dl req resp Hwf H.
+  apply (list_response_lossless (gen_env rn) list (gen_env_ok rn) Dl req resp Hwf H).
 Qed.
 
 (** What the repairs 5dbbb25 / fe94a82 changed, replayed on the model: with the pre-repair flags
@@ -74,18 +101,18 @@ Definition pre_repair_env (rn : list N -> option (list N)) : env :=
   Env pf_tables pf_qto pf_qfrom pf_qto_default_panics false true c24_exclusions rn (gen_nilfrom nil_depth (rn [])).
 
 Lemma pre_repair_unset_query_panics :
-  handle (pre_repair_env (fun s => Some s)) ok_streamer ok_streamer false 0 (VR [("Query"%string, VNil); ("Opts"%string, VNil)])
+  handle (pre_repair_env (fun s => Some s)) ok_streamer ok_stream ok_lister false 0 (VR [("Query"%string, VNil); ("Opts"%string, VNil)])
   = Panic P_NIL.
 Proof. vm_compute. reflexivity. Qed.
 
 Lemma pre_repair_childless_not_panics :
-  handle (pre_repair_env (fun s => Some s)) ok_streamer ok_streamer false 2
+  handle (pre_repair_env (fun s => Some s)) ok_streamer ok_stream ok_lister false 2
          (VR [("Query"%string, VQ "Q_Not" (VR [("Child"%string, VNil)])); ("Opts"%string, VNil)])
   = Panic P_NIL.
 Proof. vm_compute. reflexivity. Qed.
 
 Lemma pre_repair_nil_opts_panics :
-  handle (gen_env (fun s => Some s)) ok_streamer ok_streamer false 0
+  handle (gen_env (fun s => Some s)) ok_streamer ok_stream ok_lister false 0
          (VR [("Query"%string, VQ "Q_Const" (VB true)); ("Opts"%string, VNil)])
   = Panic P_NIL.
 Proof. vm_compute. reflexivity. Qed.
